@@ -1112,3 +1112,23 @@ package leveldb
 //@   safety off
 //@   ensures [C03:oldest-snapshot-is-the-front] calls("list.List.Front") == old(calls("list.List.Front")) + 1 && calls("list.List.Back") == old(calls("list.List.Back"))
 //@   guarantees [C03:no-snapshot-means-current] (e == nil) ==> result == db.seq
+
+// C01: newest-first lookup order of DB.get: the tables are consulted only after the transaction's buffer, the write
+// buffer and the frozen buffer (each one that exists) have been asked and had nothing for the key.
+//@ count memGet
+//@ func (*DB).get
+//@   props C01
+//@   safety off
+//@   requires seq <= keyMaxSeq
+//@   loop 1
+//@     invariant [C01:every-buffer-is-asked] calls("memGet") == old(calls("memGet")) + (auxm != nil ? 1 : 0) + ((rangeidx >= 1 && em != nil) ? 1 : 0) + ((rangeidx >= 2 && fm != nil) ? 1 : 0)
+//@   at before call (*version).get#1
+//@     assert [C01:buffers-before-tables] calls("memGet") == old(calls("memGet")) + (auxm != nil ? 1 : 0) + (em != nil ? 1 : 0) + (fm != nil ? 1 : 0)
+//@ func (*DB).has
+//@   props C01
+//@   safety off
+//@   requires seq <= keyMaxSeq
+//@   loop 1
+//@     invariant [C01:every-buffer-is-asked] calls("memGet") == old(calls("memGet")) + (auxm != nil ? 1 : 0) + ((rangeidx >= 1 && em != nil) ? 1 : 0) + ((rangeidx >= 2 && fm != nil) ? 1 : 0)
+//@   at before call (*version).get#1
+//@     assert [C01:buffers-before-tables] calls("memGet") == old(calls("memGet")) + (auxm != nil ? 1 : 0) + (em != nil ? 1 : 0) + (fm != nil ? 1 : 0)
